@@ -14,7 +14,7 @@ pub(super) fn generate_chain_extension_method(
     method_attrs: &MethodAttrs,
     crate_path: &TokenStream,
 ) -> Result<(TokenStream, TokenStream), Error> {
-    let method_name_str = method.sig.ident.to_string();
+    let method_name_str = syn::ext::IdentExt::unraw(&method.sig.ident).to_string();
     let method_ident = method.sig.ident.clone();
 
     // Check for explicit lifetimes early
@@ -217,14 +217,14 @@ fn generate_with_params_method(
     let params_struct_name = syn::Ident::new(
         &format!(
             "{}Params",
-            snake_case_to_pascal_case(&method_name.to_string())
+            snake_case_to_pascal_case(&syn::ext::IdentExt::unraw(method_name).to_string())
         ),
         method_name.span(),
     );
     let wrapper_enum_name = syn::Ident::new(
         &format!(
             "{}Wrapper",
-            snake_case_to_pascal_case(&method_name.to_string())
+            snake_case_to_pascal_case(&syn::ext::IdentExt::unraw(method_name).to_string())
         ),
         method_name.span(),
     );
